@@ -59,3 +59,112 @@ def View.headerJson (v : View) : HeaderJson :=
     detDdSections := dds.map (fun d => ddSection v.secs d.1) }
 
 end Pelite.Pe
+
+/-! ## JSON values and the text `serde_json` prints for them
+
+`Json` is the value tree a `Serialize` implementation describes to a serde serializer, restricted to
+what pelite emits: unit/`None` (`null`), booleans, unsigned integers (every number pelite serializes
+is a `u8`..`u64`/`usize`), strings (their UTF-8 bytes), sequences, and structs / maps / struct
+variants (all of them JSON objects; the keys are UTF-8 byte strings too; the order of the members
+is the order of the `serialize_field` / `collect_map` calls, duplicate keys are kept).
+`Json.print` is the text `serde_json::to_string` (the compact formatter) writes for such a tree;
+`serde_json` itself is trusted — `print` transcribes `serde_json::ser::format_escaped_str_contents`
+and `CompactFormatter`. -/
+namespace Pelite
+
+inductive Json
+  | null
+  | bool (b : Bool)
+  | num (n : Nat)
+  | str (s : List Nat)
+  | arr (xs : List Json)
+  | obj (kvs : List (List Nat × Json))
+  deriving Repr, Inhabited
+
+namespace Json
+
+/-- the bytes of an ASCII literal (field names, fixed strings) -/
+def asc (s : String) : List Nat := s.toList.map Char.toNat
+
+/-- `serialize_str` of an ASCII literal -/
+def lit (s : String) : Json := .str (asc s)
+/-- `serialize_struct` + `serialize_field`s: the members in call order -/
+def struct (l : List (String × Json)) : Json := .obj (l.map fun p => (asc p.1, p.2))
+/-- `Option<T>`: `None` is `null`, `Some(x)` is `x` -/
+def opt {α} (f : α → Json) : Option α → Json
+  | none => .null
+  | some a => f a
+/-- a sequence of unsigned integers (`&[u8]`, `&[u32]`, `&[Va]`) -/
+def nums (l : List Nat) : Json := .arr (l.map .num)
+
+/-- first member with the given key (what a reader of the document sees for distinct keys) -/
+def lookup (k : List Nat) : List (List Nat × Json) → Option Json
+  | [] => none
+  | (k', v) :: rest => if k' = k then some v else lookup k rest
+def field (j : Json) (name : String) : Option Json :=
+  match j with
+  | .obj kvs => lookup (asc name) kvs
+  | _ => none
+
+/-! ### the printed text -/
+
+def hexDigitL (n : Nat) : Nat := if n < 10 then 48 + n else 87 + n      -- b"0123456789abcdef"
+/-- decimal digits (`itoa`) -/
+def decimal (n : Nat) : List Nat := (Nat.toDigits 10 n).map Char.toNat
+
+/-- src: serde_json/ser.rs `ESCAPE` table + `write_char_escape`: one byte of a string -/
+def escByte (b : Nat) : List Nat :=
+  if b = 34 then [92, 34]                 -- \"
+  else if b = 92 then [92, 92]            -- \\
+  else if b = 8 then [92, 98]             -- \b
+  else if b = 9 then [92, 116]            -- \t
+  else if b = 10 then [92, 110]           -- \n
+  else if b = 12 then [92, 102]           -- \f
+  else if b = 13 then [92, 114]           -- \r
+  else if b < 32 then [92, 117, 48, 48, hexDigitL (b / 16), hexDigitL (b % 16)]     -- \u00XX
+  else [b]
+
+/-- `format_escaped_str`: the quoted, escaped string -/
+def printStr (s : List Nat) : List Nat := [34] ++ s.flatMap escByte ++ [34]
+
+mutual
+/-- `serde_json::to_string` (CompactFormatter) -/
+def print : Json → List Nat
+  | .null => [110, 117, 108, 108]
+  | .bool true => [116, 114, 117, 101]
+  | .bool false => [102, 97, 108, 115, 101]
+  | .num n => decimal n
+  | .str s => printStr s
+  | .arr xs => [91] ++ printElems xs ++ [93]
+  | .obj kvs => [123] ++ printMembers kvs ++ [125]
+/-- the elements of an array, separated by `,` -/
+def printElems : List Json → List Nat
+  | [] => []
+  | [x] => print x
+  | x :: y :: rest => print x ++ [44] ++ printElems (y :: rest)
+/-- the members of an object: `"key":value`, separated by `,` -/
+def printMembers : List (List Nat × Json) → List Nat
+  | [] => []
+  | [(k, v)] => printStr k ++ [58] ++ print v
+  | (k, v) :: m :: rest => printStr k ++ [58] ++ print v ++ [44] ++ printMembers (m :: rest)
+end
+
+end Json
+
+/-! ### `Result::ok()` inside an `Out` computation -/
+namespace Out
+/-- `result.ok()`: a library error becomes `None`, a value `Some`; a panic / unchecked access /
+hang of the accessor is one of the serializer. -/
+def okOpt {α} : Out α → Out (Option α)
+  | .ok a => .ok (some a)
+  | .err _ => .ok none
+  | .panic s => .panic s
+  | .ub s => .ub s
+  | .diverge => .diverge
+/-- what `.ok()` gives for the accessor's answer, as a pure value (for statements) -/
+def toOption {α} : Out α → Option α
+  | .ok a => some a
+  | _ => none
+end Out
+
+end Pelite
